@@ -24,6 +24,10 @@ struct Entry {
 #[derive(Default)]
 pub struct C11 {
     ledger: BTreeMap<Pubkey, Entry>,
+    /// per pool: clock of the last successful instruction that carries the clock into the reward bookkeeping
+    /// (every instruction that can change in-range liquidity is one). Accrual since then is owed at the
+    /// liquidity the pool had since then - whatever timestamp the program itself remembered.
+    settled_at: BTreeMap<Pubkey, u64>,
 }
 
 /// instructions that carry the clock into the pool's reward bookkeeping
@@ -73,13 +77,23 @@ impl Monitor for C11 {
                     continue;
                 }
             }
+            let shadow = self.settled_at.get(&pool_key).copied();
+            if carries_timestamp(name) {
+                self.settled_at.insert(pool_key, now);
+            }
             if !advanced || post.reward_last_updated_timestamp != now {
                 if advanced {
                     fail(acc, "timestamp_not_clock", format!("reward_last_updated_timestamp {} but clock {now}", post.reward_last_updated_timestamp));
                 }
                 continue;
             }
-            let dt = now - pre.reward_last_updated_timestamp;
+            // the interval the pool really spent at pre.liquidity: since the later of the program's own
+            // timestamp and the last clock-carrying instruction the monitor saw
+            let since = pre.reward_last_updated_timestamp.max(shadow.unwrap_or(0)).min(now);
+            if since > pre.reward_last_updated_timestamp {
+                acc.count("reward_intervals_with_stale_program_timestamp");
+            }
+            let dt = now - since;
             acc.count("reward_intervals");
             if dt == 0 || pre.liquidity == 0 {
                 continue;
